@@ -7,8 +7,11 @@ package server
 import (
 	"bytes"
 	"fmt"
+	"io"
 	"net/http"
+	"net/http/httputil"
 	"net/textproto"
+	"os"
 	"sort"
 	"strconv"
 	"strings"
@@ -42,6 +45,9 @@ type c13Plan struct {
 	BufReq   bool        `json:"buf_req"`
 	BufResp  bool        `json:"buf_resp"`
 	Early    bool        `json:"early"` // the target sends an interim 103 Early Hints response first
+	NoThink    bool `json:"no_think"`     // the target answers at the very instant it has the last request byte
+	WriteLagMs int  `json:"write_lag_ms"` // the proxy's writes to the target return this long after the target can read them
+	RDelayMs   int  `json:"r_delay_ms"`   // the second half of the response body follows this long after the first
 }
 
 var (
@@ -107,6 +113,9 @@ func c13Gen(t *rapid.T) c13Plan {
 	p.BufReq = rapid.IntRange(0, 4).Draw(t, "buf-req") == 0
 	p.BufResp = rapid.IntRange(0, 4).Draw(t, "buf-resp") == 0
 	p.Early = rapid.IntRange(0, 4).Draw(t, "early") == 0
+	p.NoThink = rapid.IntRange(0, 9).Draw(t, "no-think") == 0
+	p.WriteLagMs = rapid.SampledFrom([]int{0, 0, 0, 0, 5}).Draw(t, "write-lag")
+	p.RDelayMs = rapid.SampledFrom([]int{0, 0, 0, 10}).Draw(t, "r-delay")
 	return p
 }
 
@@ -165,6 +174,10 @@ const c13ClientIP = "198.51.100.23"
 func c13Run(t *testing.T, p c13Plan) (res vfResult) {
 	vfBubble(t, func(w *vfWorld) {
 		rt := w.rawTarget("raw0:80")
+		if p.NoThink {
+			rt.setThink(0)
+		}
+		w.proxyWriteLag = vfMs(p.WriteLagMs)
 		r := w.newRouter("r")
 		opts := ServiceOptions{Hosts: []string{"svc.test"}, PathPrefixes: []string{p.Prefix}, StripPrefix: p.Strip, TLSRedirect: false}
 		if p.HTTPS {
@@ -184,6 +197,16 @@ func c13Run(t *testing.T, p c13Plan) (res vfResult) {
 			return
 		}
 		synctest.Wait()
+		if os.Getenv("VF_DEBUG") != "" {
+			for _, tg := range r.services.Get("svc").active.Targets() {
+				if rp, ok := tg.proxyHandler.(*httputil.ReverseProxy); ok {
+					rp.ModifyResponse = func(resp *http.Response) error {
+						resp.Body = &vfSpyBody{ReadCloser: resp.Body, w: w}
+						return nil
+					}
+				}
+			}
+		}
 		h := NewServer(&Config{HttpPort: 80, HttpsPort: 443}, r).buildHandler()
 		f := w.front(h, "front:80")
 
@@ -199,7 +222,13 @@ func c13Run(t *testing.T, p c13Plan) (res vfResult) {
 		switch p.RFraming {
 		case "cl":
 			fmt.Fprintf(&head, "Content-Length: %d\r\n\r\n", len(rbody))
-			script = append(script, vfRawStep{Kind: "bytes", Data: head.String() + string(rbody)})
+			if p.RDelayMs > 0 && len(rbody) > 1 {
+				half := len(rbody) / 2
+				script = append(script, vfRawStep{Kind: "bytes", Data: head.String() + string(rbody[:half])}, vfRawStep{Kind: "delay", DelayMs: p.RDelayMs},
+					vfRawStep{Kind: "bytes", Data: string(rbody[half:])})
+			} else {
+				script = append(script, vfRawStep{Kind: "bytes", Data: head.String() + string(rbody)})
+			}
 		case "chunked":
 			head.WriteString("Transfer-Encoding: chunked\r\n\r\n")
 			var sb strings.Builder
@@ -398,8 +427,17 @@ func c13Run(t *testing.T, p c13Plan) (res vfResult) {
 		}
 
 		// ---- what the client got
+		// The listed finding: net/http closed the inbound request body at the first write of the response while the
+		// proxy's transport was still reading it (its last, empty read); the transport then drops the target
+		// connection and the rest of the response is lost.
+		cut := func(sig string) string {
+			if w.reqBodyClosed.Load() {
+				return "response-cut-after-request-body-closed"
+			}
+			return sig
+		}
 		if resp.HeadErr != nil || resp.Resp == nil {
-			res.failf("client-no-response", "%s: client could not parse a response: %v; raw=%q", desc, resp.HeadErr, c13Trunc(resp.Raw))
+			res.failf(cut("client-no-response"), "%s: client could not parse a response: %v; raw=%q", desc, resp.HeadErr, c13Trunc(resp.Raw))
 			return
 		}
 		if resp.Resp.StatusCode != status {
@@ -445,7 +483,7 @@ func c13Run(t *testing.T, p c13Plan) (res vfResult) {
 			wantBody = nil
 		}
 		if resp.BodyErr != nil || !bytes.Equal(resp.Body, wantBody) {
-			res.failf("response-body-changed", "%s: client received %d body bytes (err=%v), target sent %d (equal=%v)", desc, len(resp.Body), resp.BodyErr, len(wantBody), bytes.Equal(resp.Body, wantBody))
+			res.failf(cut("response-body-changed"), "%s: client received %d body bytes (err=%v), target sent %d (equal=%v)", desc, len(resp.Body), resp.BodyErr, len(wantBody), bytes.Equal(resp.Body, wantBody))
 			return
 		}
 		if len(w.spillFiles()) != 0 {
@@ -468,12 +506,33 @@ func c13Run(t *testing.T, p c13Plan) (res vfResult) {
 		if len(p.Chunked) > 0 {
 			res.label("chunked-request")
 		}
+		if p.NoThink {
+			res.label("target-answers-at-once")
+		}
+		if p.WriteLagMs > 0 {
+			res.label("proxy-write-returns-late")
+		}
 		res.label("rframing:" + p.RFraming)
 		if p.Early {
 			res.label("interim-103-before-final")
 		}
 	})
 	return res
+}
+
+type vfSpyBody struct {
+	io.ReadCloser
+	w *vfWorld
+	n int
+}
+
+func (b *vfSpyBody) Read(p []byte) (int, error) {
+	n, err := b.ReadCloser.Read(p)
+	b.n += n
+	if err != nil && err != io.EOF {
+		fmt.Fprintf(os.Stderr, "VF-DEBUG target body read error after %d bytes at %v: %T %v\n", b.n, b.w.now(), err, err)
+	}
+	return n, err
 }
 
 func c13Status(r *vfRawResp) int {
